@@ -3,7 +3,8 @@
 // Output protocol (one line per operation, consumed by ocaml/c19_driver.ml and tools/checks/c19.py):
 //   MAKE <st> = OK <st> | THROW                       construct a parameter (make_integer/make_scalar/...)
 //   SETI z | SETD f | SETIP a b | SETIP32 a b | SETFP a b | SETS hex t1 t2 d0 d1 d2 | SETE hex | WR
-//        ... ub=<0|1> = OK|THROW | <st>                assignment on the current parameter, state afterwards
+//        ... ub=0 = OK|THROW | <st>                    assignment on the current parameter, state afterwards (the ub field is
+//                                                     kept for the line format; since fix 0c6dfeb no assignment is undefined)
 //   RDI|RDF|RDIP|RDFP|RDS|RDE = value(s) | THROW | SKIPUB
 //   CFG ...                                           configurable_t histories (several objects, clones)
 //   DEFAULT <factory> <idhex> <namehex> <st>           every registered parameter of every factory object
@@ -77,7 +78,7 @@ using epar_t  = parameter_t::enum_t;
 constexpr int64_t IMIN = std::numeric_limits<int64_t>::min();
 constexpr int64_t IMAX = std::numeric_limits<int64_t>::max();
 
-long g_ubaccept = 0, g_fail = 0, g_ops = 0, g_cases = 0, g_ub = 0, g_accept = 0, g_reject = 0;
+long g_fail = 0, g_ops = 0, g_cases = 0, g_ub = 0, g_accept = 0, g_reject = 0;
 
 string hexs(const string& s)
 {
@@ -345,7 +346,7 @@ void apply(parameter_t& p, const op_t& op, const string& ctx)
     const bool isint  = k == 2 || k == 4;
 
     std::ostringstream line;
-    bool               ub = false, threw = false, is_set = true, expect_throw_kind = false;
+    bool               ub = false, nonconv = false, threw = false, is_set = true, expect_throw_kind = false;
     expect_t           ex;
     ex.kind = k;
     string result;
@@ -372,10 +373,11 @@ void apply(parameter_t& p, const op_t& op, const string& ctx)
         break;
     case op_t::setd:
         line << "SETD " << vh::hexf(op.d1);
-        expect_throw_kind = !(k == 2 || k == 3);
-        ub                = k == 2 && !cast_defined(op.d1);
-        ex.known = !ub, ex.d1 = op.d1;
-        if (k == 2 && !ub) ex.i1 = static_cast<int64_t>(op.d1);
+        // fix 0c6dfeb: a double that does not truncate into int64 must be REJECTED by an integer parameter
+        nonconv           = k == 2 && !cast_defined(op.d1);
+        expect_throw_kind = !(k == 2 || k == 3) || nonconv;
+        ex.known = !nonconv, ex.d1 = op.d1;
+        if (k == 2 && !nonconv) ex.i1 = static_cast<int64_t>(op.d1);
         guard([&] { p = op.d1; });
         break;
     case op_t::setip:
@@ -388,10 +390,10 @@ void apply(parameter_t& p, const op_t& op, const string& ctx)
         break;
     case op_t::setfp:
         line << "SETFP " << vh::hexf(op.d1) << " " << vh::hexf(op.d2);
-        expect_throw_kind = !(k == 4 || k == 5);
-        ub                = k == 4 && (!cast_defined(op.d1) || !cast_defined(op.d2));
-        ex.known = !ub, ex.d1 = op.d1, ex.d2 = op.d2;
-        if (k == 4 && !ub) ex.i1 = static_cast<int64_t>(op.d1), ex.i2 = static_cast<int64_t>(op.d2);
+        nonconv           = k == 4 && (!cast_defined(op.d1) || !cast_defined(op.d2));
+        expect_throw_kind = !(k == 4 || k == 5) || nonconv;
+        ex.known = !nonconv, ex.d1 = op.d1, ex.d2 = op.d2;
+        if (k == 4 && !nonconv) ex.i1 = static_cast<int64_t>(op.d1), ex.i2 = static_cast<int64_t>(op.d2);
         guard([&] { p = std::make_tuple(op.d1, op.d2); });
         break;
     case op_t::sets:
@@ -470,21 +472,16 @@ void apply(parameter_t& p, const op_t& op, const string& ctx)
         line << " ub=" << (ub ? 1 : 0) << " = " << (threw ? "THROW" : "OK") << " | " << after;
         std::printf("%s\n", line.str().c_str());
         const string c2 = ctx + " :: " + before + " :: " + line.str();
-        g_ub += ub ? 1 : 0;
+        g_ub += nonconv ? 1 : 0;
         (threw ? g_reject : g_accept) += 1;
         // --- direct oracle ---
         if (!in_domain(p.storage())) fail("stored value outside the declared domain", c2);
         if (dom_of(p.storage()) != dom0) fail("assignment changed the declared domain", c2);
         if (threw && after != before) fail("rejected assignment modified the parameter", c2);
-        if (expect_throw_kind && !threw) fail("assignment of a mismatched kind / unparsable text did not throw", c2);
+        if (expect_throw_kind && !threw) fail("assignment of a mismatched kind / unparsable text / non-convertible double did not throw", c2);
         if (threw && !ub && !expect_throw_kind && ex.known && op.kind != op_t::wr && value_in_domain(p.storage(), ex))
             fail("assignment of a value inside the declared domain was rejected", c2);
-        if (!threw && ub)
-        {
-            // candidate finding of the unchanged code (static_cast<int64_t>(double) outside its defined domain): own category
-            ++g_ubaccept;
-            if (g_ubaccept <= 20) std::printf("UBFAIL assignment whose conversion is undefined (NaN/inf/out of int64 range) was accepted :: %s\n", c2.c_str());
-        }
+        if (!threw && nonconv) fail("a double that is not convertible to int64 (NaN/inf/out of range) was accepted by an integer parameter", c2);
         if (!threw && !ub && ex.known && op.kind != op_t::wr && !read_matches(p, ex)) fail("accepted assignment is not read back as assigned", c2);
         return;
     }
@@ -1463,7 +1460,7 @@ int main(int argc, char** argv)
     config_histories(g, thorough ? 6000 : 600);
     factories();
 
-    std::printf("DONE cases=%ld ops=%ld accepted=%ld rejected=%ld ub=%ld factory_objects=%ld factory_params=%ld perturbed=%ld ubaccepted=%ld fails=%ld\n", g_cases, g_ops,
-                g_accept, g_reject, g_ub, g_fact_objs, g_fact_params, g_fact_perturbed, g_ubaccept, g_fail);
+    std::printf("DONE cases=%ld ops=%ld accepted=%ld rejected=%ld nonconvertible=%ld factory_objects=%ld factory_params=%ld perturbed=%ld fails=%ld\n", g_cases, g_ops,
+                g_accept, g_reject, g_ub, g_fact_objs, g_fact_params, g_fact_perturbed, g_fail);
     return 0;
 }
